@@ -7,6 +7,7 @@ RULES = [
     ('C18', [r'^Machine\._color_light\[RAW,int\]', r'^Machine\._power_light\[RAW', r'^Machine\._color_mz_light\[RAW,int', r'^Machine\._color_matrix_light\[RAW,int\]',
              r"^Parser\._set_reg\[\('REGISTER', '(hue|saturation|brightness|kelvin)'\)", r'^Parser\._set\[', r'^Parser\._power_o', r'^Parser\._operand$',
              r'^MatrixParser\.matrix_spec\[BEGIN\]', r'^Parser\._stage', r'^Parser\._set_units', r'^MatrixParser\._inline_operand', r'^Parser\._zone_range']),
+    ('C01', [r'^Machine\._switch_unit_mode', r'^CallStack\.', r'^StackFrame\.', r'^VmMath\.', r'^lemma:JUMP']),
 ]
 for pid, pats in RULES:
     for c in spec.REGISTRY:
